@@ -229,9 +229,10 @@ def ref_eval(x: Any, values: dict) -> Any:
         return -a
     if k == "abs":
         return abs(a)
-    f = {"sqrt": math.sqrt, "exp": math.exp, "sin": math.sin, "cos": math.cos, "tan": math.tan,
-         "tanh": math.tanh, "log2": math.log2, "log": math.log, "ceil": math.ceil,
-         "floor": math.floor, "round": lambda v: float(np.round(v))}[k]
+    # transcendental primitives: the same correctly-rounded-or-not libm as the code under test (numpy),
+    # so that a 1-ulp libm difference is not mistaken for a build/direct discrepancy
+    f = {k2: (lambda v, _k=k2: float(getattr(np, _k)(np.float64(v)))) for k2 in
+         ("sqrt", "exp", "sin", "cos", "tan", "tanh", "log2", "log", "ceil", "floor", "round")}[k]
     return f(a)
 
 
